@@ -40,6 +40,7 @@ type recvRig struct {
 }
 
 func newRecvRig(sources, keys []string, prepare func(root string, dirs *sts.ServerDirs)) *recvRig {
+	vh.Epoch2011()
 	r := &recvRig{root: vh.NewSandbox()}
 	recv := filepath.Join(r.root, "sandbox", "recv")
 	r.dirs = &sts.ServerDirs{
@@ -113,7 +114,7 @@ func (r *recvRig) do(q rawReq) (status int, body string, err error) {
 // a well-formed one-part data request body for file name with the given content
 func dataBody(name, renamed, prev, content string) (metaLen int, body string) {
 	meta := []map[string]interface{}{{
-		"n": name, "r": renamed, "p": prev, "f": vh.MD5([]byte(content)), "t": "946684800+5", "s": len(content), "b": 0, "e": len(content),
+		"n": name, "r": renamed, "p": prev, "f": vh.MD5([]byte(content)), "t": "1293753600+5", "s": len(content), "b": 0, "e": len(content),
 	}}
 	b, _ := json.Marshal(meta)
 	return len(b), string(b) + content
@@ -194,7 +195,7 @@ func TestC15Auth(t *testing.T) {
 					for _, q := range []rawReq{
 						{Method: "GET", Path: "/partials?v=1", Headers: map[string]string{"X-STS-SrcName": authSource, "X-STS-Key": authKey}},
 						{Method: "POST", Path: "/validate?v=1", Headers: map[string]string{"X-STS-SrcName": authSource, "X-STS-Key": authKey, "Content-Type": "application/json"},
-							Body: `[{"n":"f1","t":946684800},{"n":"probe","t":946684800}]`},
+							Body: `[{"n":"f1","t":1293753600},{"n":"probe","t":1293753600}]`},
 					} {
 						st, body, _ := r.do(q)
 						out = append(out, fmt.Sprintf("%d %s", st, body))
@@ -223,7 +224,7 @@ func TestC15Auth(t *testing.T) {
 									q.Headers["X-STS-MetaLen"] = fmt.Sprint(ml)
 									q.Headers["X-STS-Sep"] = "/"
 									if rt.path == "/validate" {
-										q.Body = `[{"n":"f1","t":946684800}]`
+										q.Body = `[{"n":"f1","t":1293753600}]`
 										q.Headers["Content-Type"] = "application/json"
 									}
 								}
@@ -327,7 +328,7 @@ func TestC15Recovery(t *testing.T) {
 			hdr := map[string]string{"X-STS-SrcName": "src"}
 			ml, body := dataBody("e", "", "", "new data")
 			probes := []rawReq{
-				{Method: "POST", Path: "/validate?v=1", Headers: map[string]string{"X-STS-SrcName": "src", "Content-Type": "application/json"}, Body: `[{"n":"a","t":946684800}]`},
+				{Method: "POST", Path: "/validate?v=1", Headers: map[string]string{"X-STS-SrcName": "src", "Content-Type": "application/json"}, Body: `[{"n":"a","t":1293753600}]`},
 				{Method: "GET", Path: "/partials?v=1", Headers: hdr},
 				{Method: "PUT", Path: "/data?v=1", Headers: map[string]string{"X-STS-SrcName": "src", "X-STS-MetaLen": fmt.Sprint(ml), "X-STS-Sep": "/"}, Body: body},
 				{Method: "PUT", Path: "/data-recovery?v=1", Headers: map[string]string{"X-STS-SrcName": "src", "X-STS-Sep": "/"}, Body: body[:ml]},
